@@ -150,3 +150,25 @@ Theorem C14_source_decoder : forall src i, bytes src ->
 Proof. intros src i B. exact (lossy_source_ok actual_width src i B). Qed.
 
 Print Assumptions C14_source_decoder.
+
+(* every well-formed character is the encoding of exactly one scalar value (with C14_decode_encode:
+   encode and decode are mutually inverse between scalar values and well-formed characters) *)
+Theorem C14_encode_decode : forall ch cp, wf_char ch -> decode ch = Some cp -> scalar cp = true /\ encode cp = ch.
+Proof. exact encode_decode. Qed.
+
+(* extend(chars) is one push per item; extending by the characters of a valid text appends it *)
+Theorem C14_extend : forall s cps, Valid s -> Forall (fun cp => scalar cp = true) cps ->
+  Valid (s_extend s cps) /\ s_extend s cps = s ++ concat (map encode cps).
+Proof. intros s cps V F. split; [apply s_extend_valid; assumption | apply s_extend_spec]. Qed.
+
+Theorem C14_extend_by_text : forall s t cps, Valid t -> map decode (chars t) = map Some cps ->
+  Forall (fun cp => scalar cp = true) cps -> s_extend s cps = s ++ t.
+Proof. exact s_extend_chars. Qed.
+
+Theorem C14_push_str : forall s t, Valid s -> Valid t -> Valid (s_push_str s t).
+Proof. exact s_push_str_valid. Qed.
+
+Print Assumptions C14_encode_decode.
+Print Assumptions C14_extend.
+Print Assumptions C14_extend_by_text.
+Print Assumptions C14_push_str.
